@@ -6,6 +6,7 @@ package props
 
 import (
 	"reflect"
+	"regexp"
 	"sync/atomic"
 
 	"github.com/parquet-go/parquet-go/format"
@@ -306,6 +307,18 @@ func C15ScenarioByName(name string) *c15Scenario {
 		}
 	}
 	return nil
+}
+
+// c15ScenarioKey: a scenario that checks its result against the input itself (not only against the
+// serial run) names the situation in brackets at the start of its error; the failure key is
+// "<that name> <scenario>", otherwise "scenario-differs-from-serial <scenario>".
+var c15KeyRe = regexp.MustCompile(`\[([a-z][a-z0-9-]+)\] `)
+
+func c15ScenarioKey(name, text string) string {
+	if m := c15KeyRe.FindStringSubmatch(text); m != nil {
+		return m[1] + " " + name
+	}
+	return "scenario-differs-from-serial " + name
 }
 
 // C15RunScenario runs the serial and the concurrent variant and compares them.
@@ -1048,22 +1061,22 @@ func scenRowGroupsReuse(seed int64, par bool) (string, error) {
 		}
 		f, err := parquet.OpenFile(bytes.NewReader(data), int64(len(data)), fopts...)
 		if err != nil {
-			return "", fmt.Errorf("variant %d (k=%d rounds=%d encryption=%d): the written file does not open: %w", variant, k, rounds, variant/2, err)
+			return "", fmt.Errorf("[reused-rowgroup-writers-file-unreadable] variant %d (k=%d rounds=%d encryption=%d): the written file does not open: %w", variant, k, rounds, variant/2, err)
 		}
 		if got := len(f.RowGroups()); got != len(wantGroups) {
-			return "", fmt.Errorf("variant %d: file has %d row groups, %d were committed", variant, got, len(wantGroups))
+			return "", fmt.Errorf("[reused-rowgroup-writers-file-differs] variant %d: file has %d row groups, %d were committed", variant, got, len(wantGroups))
 		}
 		for g, rg := range f.RowGroups() {
 			if rg.NumRows() != int64(wantGroups[g]) {
-				return "", fmt.Errorf("variant %d: row group %d has %d rows, the %d-th commit held %d", variant, g, rg.NumRows(), g, wantGroups[g])
+				return "", fmt.Errorf("[reused-rowgroup-writers-file-differs] variant %d: row group %d has %d rows, the %d-th commit held %d", variant, g, rg.NumRows(), g, wantGroups[g])
 			}
 		}
 		txt, err := c15ReadAllFrom(f)
 		if err != nil {
-			return "", fmt.Errorf("variant %d (k=%d rounds=%d encryption=%d parent-writer-rows=%v): reading the file back: %w", variant, k, rounds, variant/2, ownRows, err)
+			return "", fmt.Errorf("[reused-rowgroup-writers-file-unreadable] variant %d (k=%d rounds=%d encryption=%d parent-writer-rows=%v): reading the file back: %w", variant, k, rounds, variant/2, ownRows, err)
 		}
 		if exp := c15RowsDigest(want); txt != exp {
-			return "", fmt.Errorf("variant %d (k=%d rounds=%d encryption=%d): the file does not hold the rows written in commit order: read %s, written %s", variant, k, rounds, variant/2, txt, exp)
+			return "", fmt.Errorf("[reused-rowgroup-writers-file-differs] variant %d (k=%d rounds=%d encryption=%d): the file does not hold the rows written in commit order: read %s, written %s", variant, k, rounds, variant/2, txt, exp)
 		}
 		if keys == nil {
 			outs = append(outs, digest(data))
@@ -1150,7 +1163,7 @@ func scenKeptRows(seed int64, par bool) (string, error) {
 			for _, h := range kept[i] {
 				if now := rowsText(h.rows); now != h.text {
 					a, b := c15FirstDiff(h.text, now)
-					return fmt.Errorf("goroutine %d: rows it kept from %s changed after their reader was closed and other readers ran: read %s, now %s", i, h.at, a, b)
+					return fmt.Errorf("[rows-kept-after-close-changed] goroutine %d: rows it kept from %s changed after their reader was closed and other readers ran: read %s, now %s", i, h.at, a, b)
 				}
 			}
 		}
@@ -1164,7 +1177,7 @@ func scenKeptRows(seed int64, par bool) (string, error) {
 		for _, h := range kept[i] {
 			if now := rowsText(h.rows); now != h.text {
 				a, b := c15FirstDiff(h.text, now)
-				return "", fmt.Errorf("goroutine %d: rows it kept from %s changed after all goroutines finished: read %s, now %s", i, h.at, a, b)
+				return "", fmt.Errorf("[rows-kept-after-close-changed] goroutine %d: rows it kept from %s changed after all goroutines finished: read %s, now %s", i, h.at, a, b)
 			}
 		}
 	}
